@@ -225,6 +225,699 @@ fn pack_record(out_path: &str, runs: usize, max_files: usize, big: bool) {
     out.finish();
 }
 
+// ------------------------------------------------------------------------------------------------ C16 arc
+/// arc::from_bytes -> {"ok":true,"files":[[name,bytes]..] sorted by name} | {"ok":false,"files":[],"err":..} | {"panic":..}
+fn arc_extract(bytes: &[u8]) -> Value {
+    match catch(|| mila::arc::from_bytes(bytes)) {
+        Ok(Ok(m)) => {
+            let mut files: Vec<(Vec<u8>, Value)> = m
+                .iter()
+                .map(|(k, b)| match string_to_sjis(k) {
+                    Some(nb) => (nb.clone(), json!([bytes_to_json(&nb), bytes_to_json(b)])),
+                    None => (k.as_bytes().to_vec(), json!([{ "unencodable": k }, bytes_to_json(b)])),
+                })
+                .collect();
+            files.sort_by(|a, b| a.0.cmp(&b.0));
+            json!({"ok": true, "files": files.into_iter().map(|x| x.1).collect::<Vec<Value>>()})
+        }
+        Ok(Err(e)) => json!({"ok": false, "files": [], "err": format!("{:?}", e)}),
+        Err(p) => json!({ "panic": p }),
+    }
+}
+/// map equality between an extraction result and the expected [ok, files] printed by TLC
+fn arc_matches(got: &Value, expect: &Value) -> bool {
+    if expect["ok"].as_bool().unwrap() {
+        if got["ok"].as_bool() != Some(true) {
+            return false;
+        }
+        let key = |f: &Value| serde_json::to_string(f).unwrap();
+        let mut a: Vec<String> = got["files"].as_array().unwrap().iter().map(key).collect();
+        let mut b: Vec<String> = expect["files"].as_array().unwrap().iter().map(key).collect();
+        a.sort();
+        b.sort();
+        a == b
+    } else {
+        got["ok"].as_bool() == Some(false)
+    }
+}
+fn build_image(content: &Value) -> Result<Vec<u8>, String> {
+    match catch(|| proj::build(content).and_then(|a| a.serialize().map_err(|e| e.to_string()))) {
+        Ok(r) => r,
+        Err(p) => Err(format!("panic {}", p)),
+    }
+}
+
+fn arc_replay(cases_path: &str, out_path: &str) {
+    let cases = read_ndjson(cases_path);
+    let mut out = NdWriter::create(out_path);
+    let (mut n, mut bad, mut unbuildable, mut images) = (0u64, 0u64, 0u64, 0u64);
+    for (i, c) in cases.iter().enumerate() {
+        n += 1;
+        // (1) the image the specification derives: BinFormat!Canon(content)
+        let image = json_to_bytes(&c["image"]);
+        let got = arc_extract(&image);
+        images += 1;
+        if !arc_matches(&got, &c["expect"]) {
+            bad += 1;
+            out.put(&json!({"kind": "mismatch", "what": "canon-image", "i": i, "case_kind": c["kind"], "got": got}));
+        }
+        // (2) the same content built through mila's own archive writer
+        match build_image(&c["content"]) {
+            Ok(b) => {
+                if b != image {
+                    images += 1;
+                    let got = arc_extract(&b);
+                    if !arc_matches(&got, &c["expect"]) {
+                        bad += 1;
+                        out.put(&json!({"kind": "mismatch", "what": "built-image", "i": i, "case_kind": c["kind"], "got": got}));
+                    }
+                }
+            }
+            Err(e) => {
+                unbuildable += 1;
+                out.put(&json!({"kind": "unbuildable", "i": i, "why": e}));
+            }
+        }
+    }
+    out.put(&json!({"kind": "summary", "cases": n, "images": images, "mismatches": bad, "unbuildable": unbuildable}));
+    out.finish();
+}
+
+fn le32(x: usize) -> [u8; 4] {
+    (x as u32).to_le_bytes()
+}
+/// Random arc layout -> archive content (the test INPUT; Trace_Arc3ds decides whether it conforms and what
+/// must be extracted from it).
+fn arc_random_content(rng: &mut Rng, max_files: usize) -> (String, Value) {
+    let n = if rng.chance(1, 10) { 0 } else if rng.chance(1, 5) { rng.range(1, max_files) } else { rng.range(1, 8.min(max_files)) };
+    let mut names: Vec<String> = Vec::new();
+    while names.len() < n {
+        let mut s = random_name(rng, 8, false);
+        if names.contains(&s) {
+            s.push_str(&format!("{}", names.len()));
+        }
+        if !names.contains(&s) {
+            names.push(s);
+        }
+    }
+    let bodies: Vec<Vec<u8>> = (0..n)
+        .map(|_| {
+            let len = match rng.below(6) {
+                0 => 0,
+                1 => rng.range(1, 5),
+                2 => *rng.pick(&[31usize, 32, 33, 127, 128, 129]),
+                _ => rng.range(0, 200),
+            };
+            if rng.chance(1, 8) { vec![0u8; len] } else { rng.bytes(len) }
+        })
+        .collect();
+    let padded = rng.chance(1, 2);
+    let base = if padded { 0x60 } else { 0 };
+    #[derive(Clone)]
+    enum It {
+        Count,
+        Info,
+        Body(usize),
+        Gap(Vec<u8>),
+    }
+    let mut items: Vec<It> = (0..n).map(It::Body).collect();
+    items.push(It::Count);
+    items.push(It::Info);
+    if rng.chance(2, 3) {
+        rng.shuffle(&mut items);
+    }
+    let mut placed: Vec<It> = Vec::new();
+    if !padded {
+        // first data WORD non-zero (its first bytes may well be zero)
+        let mut lead = vec![0u8; rng.below(4)];
+        lead.push(rng.range(1, 255) as u8);
+        placed.push(It::Gap(lead));
+    }
+    for it in items {
+        if rng.chance(1, 4) {
+            let g = rng.range(1, 9);
+            placed.push(It::Gap(rng.bytes(g)));
+        }
+        placed.push(it);
+    }
+    let mut recs: Vec<usize> = (0..n).collect();
+    if rng.chance(2, 3) {
+        rng.shuffle(&mut recs);
+    }
+    // pass 1: addresses
+    let mut pos = base;
+    let (mut count_addr, mut info_addr) = (0usize, 0usize);
+    let mut body_addr = vec![0usize; n];
+    for it in &placed {
+        match it {
+            It::Count => {
+                pos = (pos + 3) / 4 * 4;
+                count_addr = pos;
+                pos += 4;
+            }
+            It::Info => {
+                pos = (pos + 3) / 4 * 4;
+                info_addr = pos;
+                pos += 16 * n;
+            }
+            It::Body(i) => {
+                body_addr[*i] = pos;
+                pos += bodies[*i].len();
+            }
+            It::Gap(g) => pos += g.len(),
+        }
+    }
+    let end = pos;
+    // planted defect
+    let kind = if rng.chance(1, 5) {
+        *rng.pick(if n == 0 { &["nocount", "noinfo"][..] } else { &["nocount", "noinfo", "noname", "end", "start"][..] })
+    } else {
+        "ok"
+    };
+    let victim = if n > 0 { rng.below(n) } else { 0 };
+    // pass 2: bytes
+    let mut data = vec![0u8; base];
+    for it in &placed {
+        match it {
+            It::Count => {
+                while data.len() % 4 != 0 {
+                    data.push(0);
+                }
+                data.extend(le32(n));
+            }
+            It::Info => {
+                while data.len() % 4 != 0 {
+                    data.push(0);
+                }
+                for (j, f) in recs.iter().enumerate() {
+                    let mut size = bodies[*f].len();
+                    let mut off = body_addr[*f] - base;
+                    if j == victim && kind == "end" {
+                        size = end - body_addr[*f] + 1 + rng.below(40);
+                    }
+                    if j == victim && kind == "start" {
+                        off = end - base + 1 + rng.below(40);
+                        size = size.max(1);
+                    }
+                    data.extend([0u8; 4]);
+                    data.extend(le32(if rng.chance(1, 2) { *f } else { j }));
+                    data.extend(le32(size));
+                    data.extend(le32(off));
+                }
+            }
+            It::Body(i) => data.extend(&bodies[*i]),
+            It::Gap(g) => data.extend(g),
+        }
+    }
+    let sj = |s: &str| bytes_to_json(&string_to_sjis(s).unwrap());
+    let text: Vec<Value> = recs
+        .iter()
+        .enumerate()
+        .filter(|(j, _)| !(kind == "noname" && *j == victim))
+        .map(|(j, f)| json!([info_addr + 16 * j, sj(&names[*f])]))
+        .collect();
+    let mut pairs: Vec<(usize, Value)> = Vec::new();
+    let extra = rng.chance(1, 2);
+    if extra {
+        pairs.push((base, sj("Data")));
+    }
+    if kind != "nocount" {
+        pairs.push((count_addr, sj("Count")));
+    }
+    if kind != "noinfo" {
+        pairs.push((info_addr, sj("Info")));
+    }
+    if extra {
+        for (j, f) in recs.iter().enumerate() {
+            pairs.push((info_addr + 16 * j, sj(&names[*f])));
+        }
+    }
+    pairs.sort_by_key(|p| p.0); // stable: per-address order kept
+    let mut labels: Vec<(usize, Vec<Value>)> = Vec::new();
+    for (a, nm) in pairs {
+        match labels.last_mut() {
+            Some((la, v)) if *la == a => v.push(nm),
+            _ => labels.push((a, vec![nm])),
+        }
+    }
+    let labels: Vec<Value> = labels.into_iter().map(|(a, v)| json!([a, v])).collect();
+    let content = json!({"endian": "le", "data": bytes_to_json(&data), "text": text, "ptrs": [], "labels": labels, "cstr": []});
+    (kind.to_string(), content)
+}
+
+fn arc_record(out_path: &str, runs: usize, max_files: usize) {
+    let mut rng = Rng::new(seed_from_env());
+    let mut out = NdWriter::create(out_path);
+    // the repository's own sample: content as parsed by BinArchive, result of arc::from_bytes on the file
+    if let Ok(file) = std::fs::read(format!("{}/resources/test/ArcTest.arc", mila_dir())) {
+        match catch(|| BinArchive::from_bytes(&file, Endian::Little)) {
+            Ok(Ok(a)) => out.put(&json!({"kind": "ok", "src": "ArcTest.arc", "content": masked_projection(&a, "le"), "result": arc_extract(&file)})),
+            other => usage(&format!("cannot read ArcTest.arc as a bin archive: {:?}", other.map(|r| r.map(|_| ()).map_err(|e| e.to_string())))),
+        }
+    }
+    for _ in 0..runs {
+        let (kind, content) = arc_random_content(&mut rng, max_files);
+        match build_image(&content) {
+            Ok(img) => out.put(&json!({"kind": kind, "src": "random", "content": content, "result": arc_extract(&img)})),
+            Err(e) => out.put(&json!({"kind": "unbuildable", "src": "random", "content": content, "result": {"unbuildable": e}})),
+        }
+    }
+    out.finish();
+}
+
+/// directory of the mila sources the harness was built against (resources/test lives there)
+fn mila_dir() -> String {
+    std::env::var("VERIF_MILA").unwrap_or_else(|_| "/repo".to_string())
+}
+
+// ------------------------------------------------------------------------------------------------ C17 aset
+fn aset_from_value(v: &Value) -> ASetFile {
+    let mut a = ASetFile::new(json_to_opt(&v["meta"]));
+    a.anim_clip_table = v["clips"].as_array().unwrap().iter().map(json_to_opt).collect();
+    for s in v["sets"].as_array().unwrap() {
+        let mut set = vec![json_to_opt(&s["label"])];
+        set.extend(s["slots"].as_array().unwrap().iter().map(json_to_opt));
+        a.sets.push(set);
+    }
+    a
+}
+fn aset_to_value(a: &ASetFile) -> Value {
+    let sets: Vec<Value> = a
+        .sets
+        .iter()
+        .map(|s| {
+            if s.is_empty() {
+                json!({"label": opt_none(), "slots": [], "bad_len": 0})
+            } else {
+                json!({"label": opt_to_json(&s[0]), "slots": s[1..].iter().map(opt_to_json).collect::<Vec<Value>>()})
+            }
+        })
+        .collect();
+    json!({"meta": opt_to_json(&a.meta), "clips": a.anim_clip_table.iter().map(opt_to_json).collect::<Vec<Value>>(), "sets": sets})
+}
+
+/// What mila does with one value: serialize, look at the image as an archive, re-read, re-serialize.
+struct RoundTrip {
+    status: String, // "ok" or the step that failed
+    bytes: Vec<u8>,
+    content: Value,
+    reparsed: Value,
+    re_same: bool,
+}
+fn empty_content() -> Value {
+    json!({"endian": "le", "data": [], "text": [], "ptrs": [], "labels": [], "cstr": []})
+}
+fn round_trip<T>(
+    serialize: impl Fn(&T) -> Result<Vec<u8>, String>,
+    parse: impl Fn(&BinArchive) -> Result<T, String>,
+    project: impl Fn(&T) -> Value,
+    x: &T,
+) -> RoundTrip {
+    let mut r = RoundTrip { status: "ok".into(), bytes: vec![], content: empty_content(), reparsed: json!({"none": true}), re_same: false };
+    let step = |r: &mut RoundTrip, name: &str, e: String| r.status = format!("{}: {}", name, e);
+    let flat = |x: Result<Result<Vec<u8>, String>, String>| x.unwrap_or_else(|p| Err(format!("panic {}", p)));
+    match flat(catch(|| serialize(x))) {
+        Ok(b) => r.bytes = b,
+        Err(e) => {
+            step(&mut r, "serialize", e);
+            return r;
+        }
+    }
+    let archive = match catch(|| BinArchive::from_bytes(&r.bytes, Endian::Little)) {
+        Ok(Ok(a)) => a,
+        Ok(Err(e)) => {
+            step(&mut r, "from_bytes", e.to_string());
+            return r;
+        }
+        Err(p) => {
+            step(&mut r, "from_bytes", format!("panic {}", p));
+            return r;
+        }
+    };
+    r.content = masked_projection(&archive, "le");
+    let back = match catch(|| parse(&archive)) {
+        Ok(Ok(y)) => y,
+        Ok(Err(e)) => {
+            step(&mut r, "from_archive", e);
+            return r;
+        }
+        Err(p) => {
+            step(&mut r, "from_archive", format!("panic {}", p));
+            return r;
+        }
+    };
+    r.reparsed = project(&back);
+    match flat(catch(|| serialize(&back))) {
+        Ok(b2) => r.re_same = b2 == r.bytes,
+        Err(e) => step(&mut r, "reserialize", e),
+    }
+    r
+}
+fn aset_round_trip(a: &ASetFile) -> RoundTrip {
+    round_trip(
+        |x: &ASetFile| x.serialize().map_err(|e| e.to_string()),
+        |ar| ASetFile::from_archive(ar).map_err(|e| e.to_string()),
+        aset_to_value,
+        a,
+    )
+}
+
+/// Compare one round trip with a generated case {value|expect, content, image}; returns mismatch descriptions.
+fn compare_round_trip(r: &RoundTrip, expect_value: &Value, c: &Value) -> Vec<(String, Value)> {
+    let mut m = Vec::new();
+    if r.status != "ok" {
+        m.push(("status".to_string(), json!(r.status)));
+        return m;
+    }
+    if r.content != c["content"] {
+        m.push(("content".to_string(), first_difference(&r.content, &c["content"])));
+    }
+    let image = c["image"].as_array().unwrap();
+    if !image.is_empty() && bytes_to_json(&r.bytes) != c["image"] {
+        m.push(("image".to_string(), json!({"got_len": r.bytes.len(), "expected_len": image.len(), "got": bytes_to_json(&r.bytes)})));
+    }
+    if &r.reparsed != expect_value {
+        m.push(("reparse".to_string(), first_difference(&r.reparsed, expect_value)));
+    }
+    if !r.re_same {
+        m.push(("reserialize".to_string(), json!("second serialization differs from the first")));
+    }
+    m
+}
+/// small description of where two JSON values differ (for the violation signature only)
+fn first_difference(got: &Value, exp: &Value) -> Value {
+    fn walk(path: String, g: &Value, e: &Value) -> Option<Value> {
+        match (g, e) {
+            (Value::Object(a), Value::Object(b)) => {
+                for (k, bv) in b {
+                    match a.get(k) {
+                        Some(av) => {
+                            if let Some(d) = walk(format!("{}.{}", path, k), av, bv) {
+                                return Some(d);
+                            }
+                        }
+                        None => return Some(json!({"at": format!("{}.{}", path, k), "got": "missing", "expected": bv})),
+                    }
+                }
+                for k in a.keys() {
+                    if !b.contains_key(k) {
+                        return Some(json!({"at": format!("{}.{}", path, k), "got": a[k], "expected": "missing"}));
+                    }
+                }
+                None
+            }
+            (Value::Array(a), Value::Array(b)) => {
+                let scalar = a.iter().chain(b.iter()).all(|x| !x.is_array() && !x.is_object());
+                if scalar {
+                    if a != b {
+                        let i = a.iter().zip(b.iter()).position(|(x, y)| x != y).unwrap_or(a.len().min(b.len()));
+                        let lo = i.saturating_sub(4);
+                        return Some(json!({"at": format!("{}[{}]", path, i), "got_len": a.len(), "expected_len": b.len(),
+                            "got": a[lo..(i + 8).min(a.len())], "expected": b[lo..(i + 8).min(b.len())]}));
+                    }
+                    return None;
+                }
+                for (i, (x, y)) in a.iter().zip(b.iter()).enumerate() {
+                    if let Some(d) = walk(format!("{}[{}]", path, i), x, y) {
+                        return Some(d);
+                    }
+                }
+                if a.len() != b.len() {
+                    return Some(json!({"at": path, "got_len": a.len(), "expected_len": b.len()}));
+                }
+                None
+            }
+            _ => {
+                if g != e {
+                    Some(json!({"at": path, "got": g, "expected": e}))
+                } else {
+                    None
+                }
+            }
+        }
+    }
+    walk(String::new(), got, exp).unwrap_or(json!("equal"))
+}
+
+fn aset_replay(cases_path: &str, out_path: &str) {
+    let cases = read_ndjson(cases_path);
+    let mut out = NdWriter::create(out_path);
+    let (mut n, mut bad) = (0u64, 0u64);
+    for (i, c) in cases.iter().enumerate() {
+        n += 1;
+        let a = aset_from_value(&c["value"]);
+        let r = aset_round_trip(&a);
+        for (what, got) in compare_round_trip(&r, &c["value"], c) {
+            bad += 1;
+            out.put(&json!({"kind": "mismatch", "what": what, "i": i, "got": got}));
+        }
+    }
+    out.put(&json!({"kind": "summary", "cases": n, "mismatches": bad, "unbuildable": 0}));
+    out.finish();
+}
+
+fn random_opt(rng: &mut Rng, present: bool) -> Option<String> {
+    if present {
+        Some(random_name(rng, 7, true))
+    } else {
+        None
+    }
+}
+fn event_of(r: &RoundTrip, src: &str, value: Value, byte_limit: usize, text_limit: usize) -> Value {
+    let small = r.bytes.len() <= byte_limit && r.content["text"].as_array().map(|t| t.len() <= text_limit).unwrap_or(false);
+    json!({"src": src, "status": r.status, "value": value, "content": r.content,
+           "bytes": if small { bytes_to_json(&r.bytes) } else { json!([]) },
+           "reparsed": r.reparsed, "re_same": r.re_same})
+}
+/// images with at most this many strings are also compared byte for byte with BinFormat!Canon by TLC
+/// (Canon is cubic in the number of strings); same constant as ImageLimit in spec/MC_ASet.tla
+const IMAGE_TEXT_LIMIT: usize = 48;
+
+fn aset_record(out_path: &str, runs: usize, max_sets: usize) {
+    let mut rng = Rng::new(seed_from_env());
+    let mut out = NdWriter::create(out_path);
+    // the repository's sample file: value = what mila reads from it
+    if let Ok(file) = std::fs::read(format!("{}/resources/test/FE14Aset_Test.bin", mila_dir())) {
+        let parsed = catch(|| BinArchive::from_bytes(&file, Endian::Little).map_err(|e| e.to_string()).and_then(|ar| ASetFile::from_archive(&ar).map_err(|e| e.to_string())));
+        match parsed {
+            Ok(Ok(a)) => {
+                let mut r = aset_round_trip(&a);
+                if r.status == "ok" && r.bytes != file {
+                    r.status = "serialize: image differs from the file it was read from".into();
+                }
+                out.put(&event_of(&r, "FE14Aset_Test.bin", aset_to_value(&a), 0, 0));
+            }
+            other => usage(&format!("cannot read FE14Aset_Test.bin: {:?}", other.map(|r| r.map(|_| ())))),
+        }
+    }
+    for run in 0..runs {
+        let nsets = match run {
+            0 => 0,
+            1 => max_sets,
+            _ => if rng.chance(1, 6) { rng.range(0, max_sets) } else { rng.range(0, 4.min(max_sets)) },
+        };
+        let mut a = ASetFile::new(random_opt(&mut rng, true).filter(|_| rng.chance(3, 4)));
+        // every third value is kept small (few strings) so that its image is also checked byte for byte
+        let small = run % 3 == 2;
+        let clip_density = if small { 0 } else { *rng.pick(&[0usize, 1, 8, 16, 16]) };
+        let nsets = if small { nsets.min(3) } else { nsets };
+        a.anim_clip_table = (0..257).map(|_| { let p = rng.below(16) < clip_density; random_opt(&mut rng, p) }).collect();
+        for _ in 0..nsets {
+            let labelled = rng.chance(2, 3);
+            let mut set = vec![random_opt(&mut rng, labelled)];
+            // per group density: empty, single bit, sparse, half, full
+            for _g in 0..8 {
+                let d = if small { rng.below(2) } else { rng.below(6) };
+                let single = rng.below(32);
+                for b in 0..32 {
+                    let p = match d {
+                        0 => false,
+                        1 => b == single,
+                        2 => rng.chance(1, 8),
+                        3 | 4 => rng.chance(1, 2),
+                        _ => true,
+                    };
+                    set.push(random_opt(&mut rng, p));
+                }
+            }
+            a.sets.push(set);
+        }
+        let r = aset_round_trip(&a);
+        out.put(&event_of(&r, "random", aset_to_value(&a), 8000, IMAGE_TEXT_LIMIT));
+    }
+    out.finish();
+}
+
+// ------------------------------------------------------------------------------------------------ C18 asset binary
+fn b4(v: &Value) -> [u8; 4] {
+    let b = json_to_bytes(v);
+    [b[0], b[1], b[2], b[3]]
+}
+/// The struct fields by name; which bit / position / width each has is decided by spec/AssetBinary.tla only.
+macro_rules! asset_str_fields {
+    ($m:ident) => {
+        $m!(conditional1, conditional2, body_model, body_texture, head_model, head_texture, hair_model, hair_texture,
+            outer_clothing_model, outer_clothing_texture, underwear_model, underwear_texture, mount_model, mount_texture,
+            mount_outer_clothing_model, mount_outer_clothing_texture, weapon_model_dual, weapon_model, skeleton,
+            mount_skeleton, accessory1_model, accessory1_texture, accessory2_model, accessory2_texture, accessory3_model,
+            accessory3_texture, attack_animation, attack_animation2, visual_effect, hid, footstep_sound, clothing_sound, voice)
+    };
+}
+macro_rules! asset_color_fields {
+    ($m:ident) => {
+        $m!((hair_color, use_hair_color), (skin_color, use_skin_color), (weapon_trail_color, use_weapon_trail_color), (bitflags, use_bitflags))
+    };
+}
+macro_rules! asset_f32_fields {
+    ($m:ident) => {
+        $m!((model_size, use_model_size), (head_size, use_head_size), (pupil_y, use_pupil_y))
+    };
+}
+macro_rules! asset_u32_fields {
+    ($m:ident) => {
+        $m!((unk3, use_unk3), (unk4, use_unk4), (unk5, use_unk5), (unk6, use_unk6), (unk7, use_unk7), (unk8, use_unk8),
+            (unk9, use_unk9), (unk10, use_unk10), (unk11, use_unk11), (unk12, use_unk12), (unk13, use_unk13))
+    };
+}
+fn typed_json(present: bool, be: [u8; 4]) -> Value {
+    // an absent field has no representation in the file: its value is projected as zero
+    json!({"some": present, "v": if present { bytes_to_json(&be) } else { json!([0, 0, 0, 0]) }})
+}
+/// raw = true keeps the value of absent typed fields (the input of a run), false = projection of a result
+fn asset_spec_to_json(s: &AssetSpec, raw: bool) -> Value {
+    let mut f = serde_json::Map::new();
+    let typed = |present: bool, be: [u8; 4]| if raw { json!({"some": present, "v": bytes_to_json(&be)}) } else { typed_json(present, be) };
+    macro_rules! st { ($($n:ident),*) => { $( f.insert(stringify!($n).to_string(), opt_to_json(&s.$n)); )* } }
+    macro_rules! co { ($(($n:ident, $u:ident)),*) => { $( f.insert(stringify!($n).to_string(), typed(s.$u, s.$n)); )* } }
+    macro_rules! fl { ($(($n:ident, $u:ident)),*) => { $( f.insert(stringify!($n).to_string(), typed(s.$u, s.$n.to_bits().to_be_bytes())); )* } }
+    macro_rules! un { ($(($n:ident, $u:ident)),*) => { $( f.insert(stringify!($n).to_string(), typed(s.$u, s.$n.to_be_bytes())); )* } }
+    asset_str_fields!(st);
+    asset_color_fields!(co);
+    asset_f32_fields!(fl);
+    asset_u32_fields!(un);
+    json!({"name": opt_to_json(&s.name), "f": Value::Object(f)})
+}
+fn asset_spec_from_json(v: &Value) -> Result<AssetSpec, String> {
+    let f = v["f"].as_object().ok_or("spec.f is not an object")?;
+    let mut s = AssetSpec::new();
+    s.name = json_to_opt(&v["name"]);
+    let mut used = 0usize;
+    let mut get = |n: &str| -> Result<&Value, String> {
+        used += 1;
+        f.get(n).ok_or(format!("field {} missing in the generated spec", n))
+    };
+    macro_rules! st { ($($n:ident),*) => { $( s.$n = json_to_opt(get(stringify!($n))?); )* } }
+    macro_rules! co { ($(($n:ident, $u:ident)),*) => { $( { let x = get(stringify!($n))?; s.$n = b4(&x["v"]); s.$u = x["some"].as_bool().unwrap(); } )* } }
+    macro_rules! fl { ($(($n:ident, $u:ident)),*) => { $( { let x = get(stringify!($n))?; s.$n = f32::from_bits(u32::from_be_bytes(b4(&x["v"]))); s.$u = x["some"].as_bool().unwrap(); } )* } }
+    macro_rules! un { ($(($n:ident, $u:ident)),*) => { $( { let x = get(stringify!($n))?; s.$n = u32::from_be_bytes(b4(&x["v"])); s.$u = x["some"].as_bool().unwrap(); } )* } }
+    asset_str_fields!(st);
+    asset_color_fields!(co);
+    asset_f32_fields!(fl);
+    asset_u32_fields!(un);
+    if used != f.len() {
+        return Err(format!("the specification's field table has {} fields, the harness knows {}", f.len(), used));
+    }
+    Ok(s)
+}
+fn asset_from_value(v: &Value) -> Result<AssetBinary, String> {
+    let mut a = AssetBinary::new();
+    a.flags = u32::from_be_bytes(b4(&v["flags"]));
+    for s in v["specs"].as_array().unwrap() {
+        a.specs.push(asset_spec_from_json(s)?);
+    }
+    Ok(a)
+}
+fn asset_to_value(a: &AssetBinary, raw: bool) -> Value {
+    json!({"flags": bytes_to_json(&a.flags.to_be_bytes()), "specs": a.specs.iter().map(|s| asset_spec_to_json(s, raw)).collect::<Vec<Value>>()})
+}
+fn asset_round_trip(a: &AssetBinary) -> RoundTrip {
+    round_trip(
+        |x: &AssetBinary| x.serialize().map_err(|e| e.to_string()),
+        |ar| AssetBinary::from_archive(ar).map_err(|e| e.to_string()),
+        |x| asset_to_value(x, false),
+        a,
+    )
+}
+
+fn asset_replay(cases_path: &str, out_path: &str) {
+    let cases = read_ndjson(cases_path);
+    let mut out = NdWriter::create(out_path);
+    let (mut n, mut bad, mut unbuildable) = (0u64, 0u64, 0u64);
+    for (i, c) in cases.iter().enumerate() {
+        n += 1;
+        let a = match asset_from_value(&c["value"]) {
+            Ok(a) => a,
+            Err(e) => {
+                unbuildable += 1;
+                out.put(&json!({"kind": "unbuildable", "i": i, "why": e}));
+                continue;
+            }
+        };
+        if asset_to_value(&a, true) != c["value"] {
+            unbuildable += 1;
+            out.put(&json!({"kind": "unbuildable", "i": i, "why": "value does not read back from the constructed AssetBinary"}));
+            continue;
+        }
+        let r = asset_round_trip(&a);
+        for (what, got) in compare_round_trip(&r, &c["expect"], c) {
+            bad += 1;
+            out.put(&json!({"kind": "mismatch", "what": what, "i": i, "got": got}));
+        }
+    }
+    out.put(&json!({"kind": "summary", "cases": n, "mismatches": bad, "unbuildable": unbuildable}));
+    out.finish();
+}
+
+fn asset_random_spec(rng: &mut Rng) -> AssetSpec {
+    let mut s = AssetSpec::new();
+    let density = *rng.pick(&[0usize, 1, 2, 8, 14, 16]);
+    let named = rng.chance(9, 10);
+    s.name = random_opt(rng, named);
+    macro_rules! st { ($($n:ident),*) => { $( { let p = rng.below(16) < density; s.$n = random_opt(rng, p); } )* } }
+    // typed fields get random bits whether present or not (absent: don't-care junk half of the time)
+    macro_rules! co { ($(($n:ident, $u:ident)),*) => { $( { s.$u = rng.below(16) < density; if s.$u || rng.chance(1, 2) { let b = rng.bytes(4); s.$n = [b[0], b[1], b[2], b[3]]; } } )* } }
+    macro_rules! fl { ($(($n:ident, $u:ident)),*) => { $( { s.$u = rng.below(16) < density; if s.$u || rng.chance(1, 2) {
+        let bits = match rng.below(4) { 0 => 0x7FC0_0000u32 | (rng.next() as u32 & 0x3F_FFFF), 1 => 0xFF80_0000u32 | (rng.next() as u32 & 0x7F_FFFF) | 1, _ => rng.next() as u32 };
+        s.$n = f32::from_bits(bits); } } )* } }
+    macro_rules! un { ($(($n:ident, $u:ident)),*) => { $( { s.$u = rng.below(16) < density; if s.$u || rng.chance(1, 2) { s.$n = rng.next() as u32; } } )* } }
+    asset_str_fields!(st);
+    asset_color_fields!(co);
+    asset_f32_fields!(fl);
+    asset_u32_fields!(un);
+    s
+}
+fn asset_record(out_path: &str, runs: usize, max_specs: usize) {
+    let mut rng = Rng::new(seed_from_env());
+    let mut out = NdWriter::create(out_path);
+    if let Ok(file) = std::fs::read(format!("{}/resources/test/AssetBinary_Test.bin", mila_dir())) {
+        let parsed = catch(|| BinArchive::from_bytes(&file, Endian::Little).map_err(|e| e.to_string()).and_then(|ar| AssetBinary::from_archive(&ar).map_err(|e| e.to_string())));
+        match parsed {
+            Ok(Ok(a)) => {
+                let mut r = asset_round_trip(&a);
+                if r.status == "ok" && r.bytes != file {
+                    r.status = "serialize: image differs from the file it was read from".into();
+                }
+                out.put(&event_of(&r, "AssetBinary_Test.bin", asset_to_value(&a, true), 0, 0));
+            }
+            other => usage(&format!("cannot read AssetBinary_Test.bin: {:?}", other.map(|r| r.map(|_| ())))),
+        }
+    }
+    for run in 0..runs {
+        let n = match run {
+            0 => 0,
+            _ => rng.range(0, max_specs),
+        };
+        let mut a = AssetBinary::new();
+        a.flags = if rng.chance(1, 3) { 0 } else { rng.next() as u32 };
+        for _ in 0..n {
+            a.specs.push(asset_random_spec(&mut rng));
+        }
+        let r = asset_round_trip(&a);
+        out.put(&event_of(&r, "random", asset_to_value(&a, true), 4000, IMAGE_TEXT_LIMIT));
+    }
+    out.finish();
+}
+
 // ------------------------------------------------------------------------------------------------ main
 fn main() {
     install_panic_hook();
@@ -234,8 +927,15 @@ fn main() {
         ["pack-replay", cases, out] => pack_replay(cases, out),
         ["pack-record", out, runs, max_files] => pack_record(out, runs.parse().unwrap(), max_files.parse().unwrap(), false),
         ["pack-record", out, runs, max_files, "big"] => pack_record(out, runs.parse().unwrap(), max_files.parse().unwrap(), true),
+        ["arc-replay", cases, out] => arc_replay(cases, out),
+        ["arc-record", out, runs, max_files] => arc_record(out, runs.parse().unwrap(), max_files.parse().unwrap()),
+        ["aset-replay", cases, out] => aset_replay(cases, out),
+        ["aset-record", out, runs, max_sets] => aset_record(out, runs.parse().unwrap(), max_sets.parse().unwrap()),
+        ["asset-replay", cases, out] => asset_replay(cases, out),
+        ["asset-record", out, runs, max_specs] => asset_record(out, runs.parse().unwrap(), max_specs.parse().unwrap()),
         _ => usage(
-            "mvh_cont pack-replay <cases> <out> | pack-record <out> <runs> <max_files> [big]",
+            "mvh_cont <pack|arc|aset|asset>-replay <cases> <out> | pack-record <out> <runs> <max_files> [big] | \
+             arc-record <out> <runs> <max_files> | aset-record <out> <runs> <max_sets> | asset-record <out> <runs> <max_specs>",
         ),
     }
 }
